@@ -46,9 +46,8 @@ theorem plainEq_patch (ss : Fields) (h : plainEqualities ss = true) :
   simp only [plainEqualities, List.all_eq_true]
   intro kv hm
   obtain ⟨kv0, hm0, rfl⟩ := mem_patchFields hm
-  obtain ⟨h1, h2, h3, h4⟩ := plainEq_entry h hm0
-  simp only [h2, h3, isScalar_patch _ h4, Bool.not_false, Bool.and_true, bne_iff_ne, ne_eq]
-  exact h1
+  obtain ⟨h2, h3, h4⟩ := plainEq_entry h hm0
+  simp only [h2, h3, isScalar_patch _ h4, Bool.not_false, Bool.and_true]
 
 theorem opAddr_patch (k : String) (v : Val) : opAddr k (patch v) = opAddr k v := by
   cases v with
@@ -94,22 +93,6 @@ theorem dget_nodollar_none (k : String) (hk : k.startsWith "$" = false) :
     have : ¬ k' = k := by intro e; subst e; rw [hk] at h; exact absurd h.1 (by simp)
     simp only [dget, this, if_false]
     exact dget_nodollar_none k hk r h.2
-
-/-! ### the seed whatever `_id` is chosen -/
-
-theorem seed_any_id (ss : Fields) (hk : plainEqualities ss = true) (hd : (dkeys ss).Nodup)
-    (idv : Val) (hid : ∀ v, dget "_id" ss = some v → idv = v) :
-    expandDots (dset "_id" idv ss) = .ok (dset "_id" idv ss) ∧
-    ∃ sf, (discardOps (.doc (dset "_id" idv ss))).1 = .doc sf ∧ HoldsAll ss sf := by
-  cases hg : dget "_id" ss with
-  | some v =>
-    rw [hid v hg, dset_same hg]
-    obtain ⟨h1, h2⟩ := seed_holds ss ss hk (plainEq_nodollar hk) hd (holdsAll_self ss hd)
-    exact ⟨expandDots_plain ss (plainEq_nodot hk) hd, _, h1, h2⟩
-  | none =>
-    obtain ⟨ha, hb⟩ := holdsAll_dset ss "_id" idv hd hg
-    obtain ⟨h1, h2⟩ := seed_holds ss _ hk (nodollar_dset ss _ _ id_nodollar (plainEq_nodollar hk)) hb ha
-    exact ⟨expandDots_plain _ (nodot_dset ss _ _ id_nodot (plainEq_nodot hk)) hb, _, h1, h2⟩
 
 theorem upsertIdv_from_filter (ss dfs : Fields) (c3 : Coll) :
     ∀ v, dget "_id" ss = some v → (upsertIdv ss dfs c3).1 = v := by
@@ -178,12 +161,11 @@ theorem upsert_then_matched (cfg : Cfg) (now : Int) (c c1 c' : Coll) (ss ufs : F
   obtain ⟨hall, hnil⟩ := opUpdate_parts hu
   have hk' := plainEq_patch ss hk
   have hd' : (dkeys (patchFields ss)).Nodup := by rw [dkeys_patchFields]; exact hd
-  obtain ⟨expanded, bf, id, hex, hap, hdocs, hid, hr⟩ := afterLoop_built _ _ _ _ _ _ _ _ _ _ hn hal
-  obtain ⟨hex', sf, hseed, hsf⟩ := seed_any_id (patchFields ss) hk' hd'
+  obtain ⟨seed, bf, id, hex, hap, hdocs, hid, hr⟩ := afterLoop_built _ _ _ _ _ _ _ _ _ _ hn hal
+  obtain ⟨sf, hseed, hsf⟩ := seed_any_id (patchFields ss) hk' hd'
     (upsertIdv (patchFields ss) (patchFields ufs) c1).1 (upsertIdv_from_filter _ _ _)
-  rw [hex'] at hex
+  rw [hseed] at hex
   cases hex
-  rw [hseed] at hap
   obtain ⟨bf', hbf, hframe⟩ := applyUpdate_frame _ _ _ _ _ _ (all_dollar_patch ufs hall)
     (patchFields_ne_nil ufs hnil) hap
   cases hbf
